@@ -792,6 +792,11 @@ package trzsz
 //@       result_of("context.Cause", 0, 0) != nil && result_of("context.Cause", 1, 0) != nil ==> fpos[file] + r0 == srcFile.Size
 //@   ensures [C08] old(tgtFile.Size) <= 0 || file == nil ==> r1 == nil && r0 == old(srcFile.Size) && fpos == old(fpos)
 //@   before os.File.Seek assert [C08] p1 == 0
+//@   # C10: an error comes out as it went in - when the exchange was cancelled (a stop, the peer's fail
+//@   # line, a timeout) what is returned is the recorded cause, so that "stopped and deleted" reaches
+//@   # clientError/serverError and the peer
+//@   ensures [C10] r1 == nil || r1 == result_of("trzszTransfer.sendInteger", 0, 0) || \
+//@       r1 == result_of("context.Cause", 0, 0) || r1 == result_of("context.Cause", 1, 0) || r1 == result_of("os.File.Seek", 0, 1)
 //@ end
 
 //@ # The hashing worker: every hash it advertises for a step is the digest state after absorbing exactly
